@@ -12,7 +12,6 @@ import (
 	"strings"
 	"time"
 
-	"github.com/zmap/zcrypto/ct"
 	"github.com/zmap/zcrypto/tls"
 	"github.com/zmap/zcrypto/x509"
 	"github.com/zmap/zcrypto/x509/pkix"
@@ -109,10 +108,14 @@ func classify(fs []mut.Fixture) []mut.Fixture {
 	add("csr", "CERTIFICATE REQUEST", csr, err)
 	// CT structures
 	if firstCert != nil {
-		leaf := ct.CreateX509MerkleTreeLeaf(firstCert, 1700000000000)
-		if b, err := ct.SerializeMerkleTreeLeaf(leaf); err == nil {
-			add("merkle-leaf", "CT", b, nil)
-		}
+		// MerkleTreeLeaf: version, leaf type, timestamp, entry type, 3-byte length, cert, 2-byte extensions
+		leaf := []byte{0, 0, 0, 0, 1, 0x8b, 0xcf, 0xe5, 0x68, 0, 0, 0, byte(len(firstCert) >> 16), byte(len(firstCert) >> 8), byte(len(firstCert))}
+		leaf = append(append(leaf, firstCert...), 0, 0)
+		add("merkle-leaf", "CT", leaf, nil)
+		pre := []byte{0, 0, 0, 0, 1, 0x8b, 0xcf, 0xe5, 0x68, 0, 0, 1}
+		pre = append(pre, bytes.Repeat([]byte{5}, 32)...)
+		pre = append(pre, 0, 0, 3, 1, 2, 3, 0, 0)
+		add("merkle-leaf-precert", "CT", pre, nil)
 		var chain bytes.Buffer
 		total := 3 + len(firstCert)
 		chain.Write([]byte{byte(total >> 16), byte(total >> 8), byte(total), byte(len(firstCert) >> 16), byte(len(firstCert) >> 8), byte(len(firstCert))})
@@ -217,11 +220,18 @@ func genCRLSet(c *vh.Ctx) []byte {
 
 var sstCert []byte
 
-func genSST(c *vh.Ctx) []byte {
+func sstGood(c *vh.Ctx) []byte {
 	if sstCert == nil {
 		t := &x509.Certificate{SerialNumber: big.NewInt(5), Subject: pkix.Name{CommonName: "sst"}, NotBefore: time.Unix(1700000000, 0), NotAfter: time.Unix(1900000000, 0)}
-		sstCert, _ = x509.CreateCertificate(c, t, t, genPub, genKey)
+		sstCert, _ = x509.CreateCertificate(&detReader{sha256.Sum256([]byte("sst"))}, t, t, genPub, genKey)
 	}
+	return sstCert
+}
+
+// genSST: withMutants also embeds mutated certificates (oracle only: the model of the stream
+// knows one certificate that parses and byte strings too short to parse)
+func genSST(c *vh.Ctx, withMutants bool) []byte {
+	sstGood(c)
 	var b bytes.Buffer
 	le := func(v uint32) { binary.Write(&b, binary.LittleEndian, v) }
 	le(0)
@@ -244,7 +254,9 @@ func genSST(c *vh.Ctx) []byte {
 			case 0:
 				cert = c.Bytes(c.Intn(8)) // does not parse
 			case 1:
-				cert = mut.Mutate(c, sstCert)
+				if withMutants {
+					cert = mut.Mutate(c, sstCert)
+				}
 			}
 			le(32)
 			if c.Intn(10) == 0 {
